@@ -33,6 +33,7 @@ std::vector<VariablePtr>::iterator AnalyserExternalVariable::AnalyserExternalVar
 {
     return std::find_if(mDependencies.begin(), mDependencies.end(), [=](const auto &v) {
         return (owningModel(v) == model)
+               && (owningComponent(v) != nullptr)
                && (owningComponent(v)->name() == componentName)
                && (v->name() == variableName);
     });
@@ -70,6 +71,7 @@ bool AnalyserExternalVariable::addDependency(const VariablePtr &variable)
     auto pimplVariable = AnalyserExternalVariable::variable();
 
     if ((pimplVariable != nullptr)
+        && (variable != nullptr)
         && (owningModel(variable) == owningModel(pimplVariable))
         && (mPimpl->findDependency(variable) == mPimpl->mDependencies.end())
         && !areEquivalentVariables(variable, pimplVariable)) {
